@@ -365,6 +365,7 @@ func mayAuth(c *Conn) bool {
 //@   props C05:callsite C06:post,callsite
 //@   requires c != nil && c.server != nil
 //@   callsite Conn.readCommand requires c.state != imap.ConnStateLogout
+//@   callsite Conn.readCommand(cc *Conn, dec *imapwire.Decoder) requires dec != nil && dec.CheckBufferedLiteralFunc != nil
 //@   callsite Session.Close requires !__called("Session.Close")
 //@   ensures[C06] __called("NewSession") && !__failed("NewSession") && c.session != nil ==> __called("Session.Close")
 
@@ -577,7 +578,8 @@ func isStartTLSConn(conn net.Conn) bool {
 // bytes would be parsed as commands.
 //
 //@ func (c *Conn) handleAppend(tag string, dec *imapwire.Decoder) (err error)
-//@   props C04:post,pre@call
+//@   props C04:post,pre@call C06:callsite
+//@   callsite Session.Append requires __result("LiteralReader.Size") <= appendLimit
 //@   requires tag != ""
 //@   ensures err == nil ==> __ghost("tagged") == old(__ghost("tagged"))+1
 //@   ensures err != nil ==> __ghost("tagged") == old(__ghost("tagged")) || __failed("Conn.writeAppendOK")
